@@ -67,13 +67,13 @@ type replayFile struct {
 }
 
 type detail struct {
-	Kind    string    `json:"kind"`
-	Repo    *repoSpec `json:"repo,omitempty"`
-	Docs    []docSpec `json:"docs,omitempty"`
-	Repos   []repoDocs `json:"repos,omitempty"`
-	Opts    *buildOpts `json:"opts,omitempty"`
-	Script  string    `json:"script,omitempty"`
-	Op      string    `json:"op,omitempty"`
+	Kind   string     `json:"kind"`
+	Repo   *repoSpec  `json:"repo,omitempty"`
+	Docs   []docSpec  `json:"docs,omitempty"`
+	Repos  []repoDocs `json:"repos,omitempty"`
+	Opts   *buildOpts `json:"opts,omitempty"`
+	Script string     `json:"script,omitempty"`
+	Op     string     `json:"op,omitempty"`
 }
 
 type repoDocs struct {
